@@ -126,7 +126,7 @@ func runC14(c bson.D, x *Ctx) error {
 	case ref.ErrInvalid:
 		x.Class("ref-rejects")
 		if gerr == nil {
-			return fmt.Errorf("projection %s accepted (result %s) but must be rejected", show(proj), string(gotBytes))
+			return fmt.Errorf("projection %s accepted (result %x) but must be rejected", show(proj), gotBytes)
 		}
 		x.NonTrivial()
 		return nil
